@@ -54,7 +54,7 @@ FIXED = {
         }, "meta": _META1},
         "regs": [["m0"], ["m1"], ["m2"], ["m3"]],
         "calls": [{"args": [["n", "K1", 0, []]]}, {"args": [["n", "K2", 0, []]]},
-                  {"args": [["int", 1]]}],
+                  {"args": [["int", 1]]}, {"args": [["n", "K3", 0, []]]}],  # K3(K1, K2): ambiguous
     },
     "dep": {
         "spec": {"classes": _CL, "hooks": [{"name": "H0", "true_for": ["K0", "K1", "K3"]}],
@@ -97,6 +97,9 @@ FIXED_SHAPES = {
     "S5_chain_vs_warm": (1, 0, 1),
     "S2b_first_diff": (None, 0, 2),
     "S4b_miss_diff": (1, 0, 2),
+    # racing a call whose resolution ends in the ambiguity error (chain world only)
+    "S6_ambiguous_same": (2, 3, 3),
+    "S7_ambiguous_cold": (None, 3, 3),
 }
 
 
@@ -395,6 +398,8 @@ def jobs(tier, seed):
                            "stride": 32, "part": part, "wide": "all"}
     for name in FIXED:
         for shape in FIXED_SHAPES:
+            if max(x for x in FIXED_SHAPES[shape] if x is not None) >= len(FIXED[name]["calls"]):
+                continue
             for victim in (0, 1):
                 if victim == 1 and FIXED_SHAPES[shape][1] == FIXED_SHAPES[shape][2]:
                     continue
@@ -403,6 +408,8 @@ def jobs(tier, seed):
                            "stride": stride, "part": part, "all_visits": tier == "thorough"}
     for name in (("chain",) if tier == "quick" else FIXED):
         for shape in (("S1_first_same", "S2_first_diff") if tier == "quick" else FIXED_SHAPES):
+            if max(x for x in FIXED_SHAPES[shape] if x is not None) >= len(FIXED[name]["calls"]):
+                continue
             for victim in (0, 1):
                 for part in range(4):
                     yield {"kind": "fixed_pairs", "name": name, "shape": shape, "victim": victim,
